@@ -3,6 +3,8 @@
 //!
 //! `cli_build <release|chk>`            builds src/bin/ymqs.rs (chk = release + overflow checks + debug assertions)
 //!                                      answer: `ok` | `build-failed <last line>`
+//! `clscli_build`, `clscli <release|chk> <secs> <args...>`: the same for `ymcls` (the argument OUT = a fresh output directory;
+//!                                      answer has ` files=<name:content;...>` appended)
 //! `cli <release|chk> <secs> <args...>` runs it; answer: `exit=<code|sig> out=<stdout lines joined by ,|-> err=<kind>`
 //!   kind = `-` (no panic) | `refused-size` (its own size panic) | `refused-parse` | `failure` (unwrap of the declared
 //!          FactoringFailure) | `refused-args:<msg>` (another panic raised in src/bin/ymqs.rs itself) | `panic:<sanitised message>`
@@ -25,13 +27,14 @@ fn target_dir(profile: &str) -> PathBuf {
 
 pub fn handle(op: &str, a: &[&str]) -> Option<String> {
     match op {
-        "cli_build" => {
+        "cli_build" | "clscli_build" => {
             let profile = *a.first()?;
             if profile != "release" && profile != "chk" {
                 return None;
             }
+            let bin = if op == "cli_build" { "ymqs" } else { "ymcls" };
             let mut c = Command::new("cargo");
-            c.args(["build", "--release", "--offline", "--bin", "ymqs", "--manifest-path"])
+            c.args(["build", "--release", "--offline", "--bin", bin, "--manifest-path"])
                 .arg(format!("{}/Cargo.toml", repo()))
                 .env("CARGO_TARGET_DIR", target_dir(profile))
                 .env("CARGO_NET_OFFLINE", "true")
@@ -51,15 +54,34 @@ pub fn handle(op: &str, a: &[&str]) -> Option<String> {
                 Some(format!("build-failed {}", e.lines().last().unwrap_or("").replace(' ', "_")))
             }
         }
-        "cli" => {
+        "cli" | "clscli" => {
             let profile = *a.first()?;
             let secs: u64 = a.get(1)?.parse().ok()?;
-            let bin = target_dir(profile).join("release").join("ymqs");
+            let bin = target_dir(profile).join("release").join(if op == "cli" { "ymqs" } else { "ymcls" });
             if !bin.exists() {
                 return Some("not-built".into());
             }
+            // `clscli`: the literal argument OUT is replaced by a fresh output directory, whose files are reported
+            static COUNTER: std::sync::atomic::AtomicU64 = std::sync::atomic::AtomicU64::new(0);
+            let mut outdir: Option<PathBuf> = None;
+            let mut argv: Vec<String> = vec![];
+            for x in &a[2..] {
+                if op == "clscli" && *x == "OUT" {
+                    let d = target_dir(profile).join(format!(
+                        "clsout-{}-{}",
+                        std::process::id(),
+                        COUNTER.fetch_add(1, std::sync::atomic::Ordering::SeqCst)
+                    ));
+                    let _ = std::fs::remove_dir_all(&d);
+                    std::fs::create_dir_all(&d).ok()?;
+                    argv.push(d.to_string_lossy().to_string());
+                    outdir = Some(d);
+                } else {
+                    argv.push(x.to_string());
+                }
+            }
             let mut child = Command::new(bin)
-                .args(&a[2..])
+                .args(&argv)
                 .env("RUST_BACKTRACE", "0")
                 .stdin(Stdio::null())
                 .stdout(Stdio::piped())
@@ -96,7 +118,24 @@ pub fn handle(op: &str, a: &[&str]) -> Option<String> {
             let out = t1.join().ok()?;
             let err = t2.join().ok()?;
             let lines: Vec<&str> = out.lines().map(|l| l.trim()).filter(|l| !l.is_empty()).collect();
-            let outs = if lines.is_empty() { "-".to_string() } else { lines.join(",").replace(' ', "_") };
+            let mut outs = if lines.is_empty() { "-".to_string() } else { lines.join(",").replace(' ', "_") };
+            if let Some(d) = &outdir {
+                // files of the output directory: name:content with newlines as `,` and spaces as `_` (relations.sieve: line count)
+                let mut files = vec![];
+                let mut names: Vec<_> = std::fs::read_dir(d).ok()?.filter_map(|e| e.ok()).map(|e| e.file_name().to_string_lossy().to_string()).collect();
+                names.sort();
+                for nm in names {
+                    let content = std::fs::read_to_string(d.join(&nm)).unwrap_or_default();
+                    if nm == "group.structure" || nm == "classnumber" {
+                        let c: Vec<&str> = content.lines().map(|l| l.trim()).filter(|l| !l.is_empty()).collect();
+                        files.push(format!("{nm}:{}", c.join(",").replace(' ', "_")));
+                    } else {
+                        files.push(format!("{nm}:{}lines", content.lines().count()));
+                    }
+                }
+                let _ = std::fs::remove_dir_all(d);
+                outs = format!("{outs} files={}", if files.is_empty() { "-".to_string() } else { files.join(";") });
+            }
             let Some(status) = status else {
                 return Some(format!("exit=timeout out={outs} err=timeout"));
             };
@@ -116,7 +155,9 @@ pub fn handle(op: &str, a: &[&str]) -> Option<String> {
                 let text = if msg.is_empty() { first.to_string() } else { msg };
                 kind = if text.contains("exceeds") && text.contains("bits limit") {
                     "refused-size".into()
-                } else if text.contains("could not read decimal number") || first.contains("could not read decimal number") {
+                } else if text.contains("Discriminant must be 0 or 1 mod 4") {
+                    "refused-mod4".into()
+                } else if text.contains("could not read decimal number") || text.contains("could not read input number") {
                     "refused-parse".into()
                 } else if text.contains("FactoringFailure") {
                     "failure".into()
@@ -124,7 +165,7 @@ pub fn handle(op: &str, a: &[&str]) -> Option<String> {
                     let s: String = text.chars().map(|c| if c.is_ascii_alphanumeric() { c } else { '_' }).take(80).collect();
                     // a panic raised by the program's own argument handling (src/bin/ymqs.rs) is a refusal of its
                     // arguments; a panic raised anywhere else is a crash of the library
-                    if first.contains("src/bin/ymqs.rs") {
+                    if first.contains("src/bin/ymqs.rs") || first.contains("src/bin/ymcls.rs") {
                         format!("refused-args:{s}")
                     } else {
                         format!("panic:{s}")
